@@ -16,6 +16,14 @@ Tie of the Lean small-step model (Model/Reuse.lean) to /repo, on every run:
      `_suboptimizers[<thread ident>]` and `_cache[h]`; `last_opt` reads the caller's ident;
      `AutoOptimizer` stores only `_hyperoptimizers_by_thread[<thread ident>]`.
 
+  N  re-entrant queries (harness/c16_nest.py, Model/ReuseNest.lean, op `c16.nrun`): a hyper method
+     registered through `register_hyper_function` puts nested queries to the shared objects while
+     the outer search runs (depth 1-3, both interfaces, cache hits and misses at every level).
+  Q  overlapping pool-parallel sub-searches (harness/c16_pool.py, Model/ReusePool.lean, op
+     `c16.pool`): a deterministic user-supplied executor as `parallel=`.
+  Every forced schedule of E is also run through `c16.nrun` segment by segment: the kind of
+  shared access that ended each segment must be what the model's thread reaches next.
+
 Implementation-side oracle (no model): `tree.inputs / output / size_dict / N` of every returned
 tree equal the query's -- under forced schedules, under free-running threads with
 `sys.setswitchinterval(1e-6)`, and sequentially, for the string presets, Auto / AutoHQ with and
@@ -42,28 +50,47 @@ from . import common, gen
 PROP = "C16"
 LEVEL = "proof"
 LEVEL_TEXT = (
-    "Lean 4 theorem over a small-step interleaving semantics of ReusableOptimizer.search and "
+    "Lean 4 theorems over small-step interleaving semantics of ReusableOptimizer.search/__call__ and "
     "AutoOptimizer.search (one step = a thread's code up to its next shared dict access): for every "
     "schedule, any number of threads with any query queues, every behaviour of the trial functions, every "
     "hash function (collisions allowed), all overwrite / cache_only settings, each returned tree belongs to "
     "the contraction its call asked about (per_thread_isolation, by the inductive invariant "
     "'_suboptimizers[t] holds, between store and fetch, an optimizer searched on t's current query only; "
-    "no step of another thread writes key t'). sequential_fresh is the one-thread case for the "
+    "no step of another thread writes key t'). Re-entrant queries (a trial function of a running sub-search "
+    "queries the same or another optimizer object, to any depth, through either interface) are covered by a "
+    "second semantics with a stack of frames per thread: nested_isolation for every nesting tree and every "
+    "schedule, nested_path_isolation for the path interface under a separating hash, and a decide "
+    "counter-example for the order 'register the sub-optimizer, then search' (register_first_counterexample). "
+    "Overlapping pool-parallel sub-searches: with a fresh `_futures` list per search every search reports only "
+    "trials it dispatched itself and moves exactly like C08's single-search model, for every interleaving and "
+    "completion order (pool_isolation, pool_refines_single_search); refuted for one shared list "
+    "(shared_list_counterexample). Object identity: with a new sub-optimizer object per call the tree read "
+    "from the registered object is the caller's own for every schedule at trial granularity "
+    "(fresh_suboptimizer_isolation, heap model); one recycled instance behind a lock is refuted "
+    "(shared_suboptimizer_counterexample). The interface's _PATH_CACHE hands out only paths of the query's "
+    "contraction given a separating key and an isolated layer below (iface_path_isolation). "
+    "sequential_fresh is the one-thread case for the "
     "non-caching AutoOptimizer with a fresh sub-optimizer per call; for the code as found (per-thread "
     "HyperOptimizer re-used, `best` persists) the statement is refuted by a concrete history "
     "(sequential_fresh_counterexample, DESIGN 7k) and proved under the guard 'at most one hard query per "
-    "thread id' (sequential_fresh_partial). The model is tied to /repo on every run by equality "
-    "correspondence under forced schedules (exhaustive for small programs), plus free-running stress."
+    "thread id' (sequential_fresh_partial). The models are tied to /repo on every run by equality "
+    "correspondence under forced schedules (exhaustive for small programs; per segment the kind of shared "
+    "access reached is compared as well), by real nested queries issued from a registered hyper function, by "
+    "a deterministic user-supplied executor for overlapping pool searches, plus free-running stress."
 )
 LEVEL_NOTE = (
     "Proof over the marked granularity: atomicity of single dict get/set under the GIL is assumed, "
     "pre-emption inside one bytecode-level dict operation is not modelled; the on-disk side of DiskDict, "
     "hash collisions of fingerprint 'b' (C14) and failures of _reconstruct_tree are out of scope; trial "
-    "functions are assumed to build trees over the inputs they receive (C05)."
+    "functions are assumed to build trees over the inputs they receive (C05); on_trial_error='raise' (an "
+    "exception of a nested query aborting the outer search) is not modelled; the pool model takes worker "
+    "results as an oracle and imposes no control flow on the event sequence (it proves more than needed)."
 )
-TECHNIQUE = ("Lean 4 proof (inductive invariant over a small-step interleaving semantics, frame lemma per "
-             "thread slot) + schedule-forced differential correspondence with the real optimizers + AST facts")
-LEAN_MODULES = ["CotengraVerif.Props.C16", "CotengraVerif.Props.C16Facts"]
+TECHNIQUE = ("Lean 4 proof (inductive invariants over small-step interleaving semantics: frame lemma per thread "
+             "slot, stack-of-frames invariant for re-entrancy, list-identity invariant for the pool) + "
+             "schedule-forced differential correspondence with the real optimizers + AST facts")
+LEAN_MODULES = ["CotengraVerif.Props.C16", "CotengraVerif.Props.C16Nest", "CotengraVerif.Props.C16Pool",
+                "CotengraVerif.Props.C16Iface", "CotengraVerif.Props.C16Shared", "CotengraVerif.Props.C16Facts"]
 THEOREMS = [
     "Cotengra.C16.per_thread_isolation",
     "Cotengra.C16.per_thread_isolation_from",
@@ -77,27 +104,61 @@ THEOREMS = [
     "Cotengra.C16.sequential_fresh_partial",
     "Cotengra.C16.presets_stateless",
     "Cotengra.C16.shared_stores_keyed_by_thread",
+    # re-entrant queries (Props/C16Nest.lean)
+    "Cotengra.C16.nested_isolation",
+    "Cotengra.C16.nested_isolation_from",
+    "Cotengra.C16.nested_isolation_seq",
+    "Cotengra.C16.nstep_inv",
+    "Cotengra.C16.stepTop_subopts_other",
+    "Cotengra.C16.register_first_counterexample",
+    "Cotengra.C16.nested_no_spurious_errors",
+    "Cotengra.C16.nested_path_isolation",
+    "Cotengra.C16.path_collision_counterexample",
+    # overlapping pool-parallel sub-searches (Props/C16Pool.lean)
+    "Cotengra.C16.pool_isolation",
+    "Cotengra.C16.pool_refines_single_search",
+    "Cotengra.C16.shared_list_counterexample",
+    "Cotengra.C16.futures_fresh_per_search",
+    # the path cache of the functional interface (Props/C16Iface.lean)
+    "Cotengra.C16.iface_path_isolation",
+    "Cotengra.C16.iface_key_collision_counterexample",
+    "Cotengra.C16.iface_key_is_full_tuple",
+    # object identity of the sub-optimizer (Props/C16Shared.lean)
+    "Cotengra.C16.fresh_suboptimizer_isolation",
+    "Cotengra.C16.sstep_inv",
+    "Cotengra.C16.shared_suboptimizer_counterexample",
+    "Cotengra.C16.suboptimizer_fresh_per_call",
 ]
 TRUSTED = [
     "Lean 4.33 kernel; axioms ⊆ {propext, Classical.choice, Quot.sound}",
-    "hand-written model Model/Reuse.lean (+ Model/Hyper.lean) of reusable.py:141-143,166-178,231-289 and "
-    "presets.py:41-123, tied by the forced-schedule correspondence on the explored schedules only",
+    "hand-written models Model/Reuse.lean, Model/ReuseNest.lean, Model/ReusePool.lean, Model/ReuseShared.lean, "
+    "Model/ReuseIface.lean (+ Model/Hyper.lean) of reusable.py:141-143,161-172,240-297, presets.py:41-123, "
+    "hyper.py:571-575,625-659 and interface.py:227,284-300, tied by the forced-schedule correspondences on the "
+    "explored schedules only",
     "CPython: single dict get/set/contains are atomic under the GIL; threading.get_ident() is unique "
     "among live threads",
     "the harness-side instrumentation (wrappers installed as instance attributes; the controller that "
-    "serialises threads) and the AST fact extractor (gen_facts)",
+    "serialises threads and sets aside a thread that does not return within 3 s as blocked; the registered "
+    "hyper function 'verif-nest'; the deterministic executor; the sys.settrace line hook; the yielding dict put "
+    "in place of interface._PATH_CACHE for the duration of a run) and the AST fact extractor (gen_facts)",
 ]
 ASSUMPTIONS = [
     "yield points = after each shared access (hash_query, sub-search return, _suboptimizers store, _cache "
-    "read/write, _get_optimizer_hyper_threadsafe return, end of query); finer pre-emption is explored only "
-    "by the free-running stress runs",
+    "read/write, _get_optimizer_hyper_threadsafe return, a nested query being put, a pool submission, a pool "
+    "harvest, end of query); finer pre-emption is explored only by the free-running stress runs",
     "distinct contractions get distinct 'a' fingerprints except the deliberately colliding pair in the pool",
 ]
 RULE = ("pool of 8 small contractions (easy and hard for AutoOptimizer's cutoff, one pair with equal "
         "fingerprint); programs = 1-3 queries per thread, 2-3 threads; modes {Reusable overwrite no/yes/"
         "improved, cache_only, ReusableRandomGreedy, Auto cached, Auto plain}; schedules: all interleavings "
-        "(DFS) of small programs + random ones; non-trivial = at least two threads touching one object or a "
-        "repeated key or a second hard query on one thread; distinct by (mode, programs, effective schedule)")
+        "(DFS) of small programs + random ones; nested: random nesting trees (depth 1-3, <= 10 nested queries, "
+        "2 trials per sub-search, 10% scripted trial failures, 25% path interface, 1-2 objects of random kinds) "
+        "run sequentially and under random / exhaustive schedules of 2-3 threads; pool: 2-3 threads x 1-2 "
+        "queries through one ReusableHyperOptimizer(parallel=<deterministic executor>), completion policies "
+        "inline/fifo/lifo/random, with and without a stop rule, all interleavings of two one-query threads + "
+        "random ones; non-trivial = at least two threads touching one object or a "
+        "repeated key or a second hard query on one thread or a nested query; distinct by (mode, programs, "
+        "effective schedule)")
 BUDGET = {"quick": 700, "thorough": 3300}
 
 warnings.filterwarnings("ignore", message="Trial error")
@@ -152,6 +213,44 @@ for _n in POOL:
     KEY.append(_KEYS.setdefault(_h, len(_KEYS)))
 
 
+_KEYSB = {}
+KEYB = []
+for _n in POOL:
+    try:
+        _h = hash_contraction(_n.sym_inputs(), _n.sym_output(), _n.sym_sizes(), "b")
+    except Exception:
+        _h = ("pool", len(KEYB))
+    KEYB.append(_KEYSB.setdefault(_h, len(_KEYSB)))
+
+
+def base_mode(mode):
+    """modes may carry option flags: '<mode>+b' = hash_method 'b', '+dir' = a disk cache directory,
+    '+flat' = directory_split=False"""
+    return mode.split("+")[0]
+
+
+def mode_flags(mode):
+    return mode.split("+")[1:]
+
+
+def keyof(mode, nid):
+    return KEYB[nid] if "b" in mode_flags(mode) else KEY[nid]
+
+
+def net_of_tree_canon(tree, nid):
+    """`nid` if the tree is built over the canonicalised form of pool contraction `nid` (what
+    `array_contract_tree(..., canonicalize=True)` searches), else -1"""
+    from cotengra import interface as _I
+    n = POOL[nid]
+    try:
+        ins, out, sd, _ = _I.normalize_input(n.sym_inputs(), n.sym_output(), n.sym_sizes(), None, "greedy", True)
+        ok = [tuple(t) for t in tree.inputs] == [tuple(t) for t in ins] and tuple(tree.output) == tuple(out) \
+            and all(dict(tree.size_dict).get(k) == v for k, v in dict(sd).items()) and tree.N == len(n.inputs)
+        return nid if ok else -1
+    except Exception:
+        return -1
+
+
 def net_of_tree(tree):
     """pool id of the contraction the tree is built over, -1 if none."""
     try:
@@ -172,6 +271,16 @@ def net_of_tree(tree):
 # ------------------------------------------------------------------------------------------
 
 class Controller:
+    """Runs exactly one thread at a time, from yield point to yield point.
+
+    A thread that is given the turn and does not come back within `block_timeout` seconds is
+    taken to be blocked outside the controller (e.g. on a lock held by a parked thread): it is set
+    aside until it arrives at a yield point, and another thread gets the turn.  From then on the
+    run is no longer strictly serialised (`degraded` is set: such a run is judged by the oracle
+    only, never compared with the model); it can still not hang."""
+
+    block_timeout = 3.0
+
     def __init__(self, n, chooser):
         self.cv = threading.Condition()
         self.turn = None
@@ -179,7 +288,10 @@ class Controller:
         self.chooser = chooser     # callable(enabled list) -> thread index
         self.effective = []
         self.enabled_log = []
+        self.seg_labels = []       # what ended each segment of `effective` (name of the yield point / "end")
         self.free = False          # stress mode: yields are no-ops
+        self.blocked = set()       # threads that did not come back from their turn
+        self.degraded = None
 
     def start(self, i):
         if self.free:
@@ -188,11 +300,15 @@ class Controller:
             while self.turn != i:
                 self.cv.wait()
 
-    def yield_(self, i):
+    def yield_(self, i, label="end"):
         if self.free:
             return
         with self.cv:
-            self.turn = None
+            if self.turn == i:
+                self.seg_labels.append(label)
+                self.turn = None
+            # else: this thread was set aside as blocked and has been released meanwhile
+            self.blocked.discard(i)
             self.cv.notify_all()
             while self.turn != i:
                 self.cv.wait()
@@ -200,33 +316,57 @@ class Controller:
     def finish(self, i):
         with self.cv:
             self.done[i] = True
-            if not self.free:
+            self.blocked.discard(i)
+            if not self.free and self.turn == i:
+                self.seg_labels.append("end")
                 self.turn = None
             self.cv.notify_all()
 
     def drive(self, limit=10000):
         for _ in range(limit):
             with self.cv:
-                enabled = [i for i, d in enumerate(self.done) if not d]
-                if not enabled:
+                if all(self.done):
                     return True
+                enabled = [i for i, d in enumerate(self.done) if not d and i not in self.blocked]
+                if not enabled:
+                    # every unfinished thread is blocked: wait for one of them to be released
+                    if not self.cv.wait_for(lambda: all(self.done) or any(
+                            (not d) and i not in self.blocked for i, d in enumerate(self.done)), timeout=10):
+                        self.degraded = "deadlock: every unfinished thread is blocked outside the controller"
+                        return False
+                    continue
                 i = self.chooser(enabled, len(self.effective))
                 self.enabled_log.append(list(enabled))
                 self.effective.append(i)
                 self.turn = i
                 self.cv.notify_all()
-                while self.turn is not None:
-                    self.cv.wait()
+                if not self.cv.wait_for(lambda: self.turn is None, timeout=self.block_timeout):
+                    self.blocked.add(i)
+                    self.degraded = (f"thread {i} did not reach a yield point within {self.block_timeout}s "
+                                     "(blocked outside the controller)")
+                    _BLOCKING["seen"] += 1
+                    self.seg_labels.append("blocked")
+                    self.turn = None
         return False
 
 
+_BLOCKING = {"seen": 0}
+
+
 _tls = threading.local()
+_ROBJS = {}    # id(instrumented Reusable object) -> object (cleared per nested run)
 
 
-def _yield():
+def _yield(label="hook"):
     ctl = getattr(_tls, "ctl", None)
     if ctl is not None:
-        ctl.yield_(_tls.idx)
+        ctl.yield_(_tls.idx, label)
+
+
+def _node():
+    """the plan node of the query this thread is currently inside (innermost), or None"""
+    st = getattr(_tls, "qstack", None)
+    return st[-1]["node"] if st else None
 
 
 class YieldDict(dict):
@@ -234,7 +374,7 @@ class YieldDict(dict):
 
     def __setitem__(self, k, v):
         dict.__setitem__(self, k, v)
-        _yield()
+        _yield("store")
 
 
 class CacheProxy:
@@ -248,12 +388,12 @@ class CacheProxy:
 
     def __getitem__(self, k):
         v = self._inner[k]
-        _yield()
+        _yield("cacheGet")
         return v
 
     def __setitem__(self, k, v):
         self._inner[k] = v
-        _yield()
+        _yield("cacheSet")
 
     def __getattr__(self, name):
         return getattr(self._inner, name)
@@ -279,6 +419,8 @@ def instrument_reusable(ropt):
     ropt._verif_instrumented = True
     ropt._verif_scores = {}      # thread index -> [score of each sub-search]
     ropt._verif_nsearch = {}
+    ropt._verif_subopt_ids = []  # id() of the object every `_get_suboptimizer()` call returned
+    ropt._verif_subopt_keep = []
     ropt._suboptimizers = YieldDict(ropt._suboptimizers)
     ropt._cache = CacheProxy(ropt._cache)
     orig_hash = ropt.hash_query
@@ -288,29 +430,48 @@ def instrument_reusable(ropt):
     # the wrappers pass through whatever arguments the real methods take
     def hash_query(*a, **kw):
         r = orig_hash(*a, **kw)
-        _yield()
+        nd = _node()
+        if nd is not None:
+            nd["obj_key"] = id(ropt)
+            _ROBJS[id(ropt)] = ropt
+        _yield("hash")
         return r
 
     def _get_suboptimizer(*a, **kw):
         opt = orig_get(*a, **kw)
         idx = getattr(_tls, "idx", 0)
         ropt._verif_nsearch[idx] = ropt._verif_nsearch.get(idx, 0) + 1
+        nd = _node()
+        if nd is not None:
+            nd["searched"] = True
+        ropt._verif_subopt_ids.append(id(opt))
+        ropt._verif_subopt_keep.append(opt)          # keeps the ids unique
+        if getattr(opt, "_verif_search_wrapped", False):
+            return opt                                # the same object handed out again
         orig_search = opt.search
 
         def search(*a, **kw):
             tree = orig_search(*a, **kw)
-            _yield()
+            _yield("search")
             return tree
 
         opt.search = search
+        try:
+            opt._verif_search_wrapped = True
+        except Exception:
+            pass
         return opt
 
     def _run_optimizer(*a, **kw):
+        nd = _node()               # the query that runs this sub-search (nested ones pop before we return)
         con = orig_run(*a, **kw)
         try:
-            ropt._verif_scores.setdefault(getattr(_tls, "idx", 0), []).append(con["score"])
+            sc = con["score"]
         except Exception:
-            ropt._verif_scores.setdefault(getattr(_tls, "idx", 0), []).append(None)
+            sc = None
+        ropt._verif_scores.setdefault(getattr(_tls, "idx", 0), []).append(sc)
+        if nd is not None:
+            nd["score"] = sc
         return con
 
     ropt.hash_query = hash_query
@@ -335,14 +496,21 @@ def instrument_auto(aopt):
                 aopt._verif_instr_error = str(e)
         else:
             aopt._verif_nsearch[idx] = aopt._verif_nsearch.get(idx, 0) + 1
+            nd = _node()
+            if nd is not None:
+                nd["searched"] = True
         aopt._verif_objs[idx] = opt
-        _yield()
+        nd = _node()
+        if nd is not None:
+            nd["obj_key"] = id(opt)
+        _yield("getopt")
         return opt
 
     aopt._get_optimizer_hyper_threadsafe = getter
     return aopt
 
 
+_TMPDIRS = []
 HYPER_KW = dict(methods=("greedy",), optlib="random", max_repeats=2, max_time=None, parallel=False,
                 progbar=False)
 
@@ -367,18 +535,37 @@ class HookObjective(FlopsObjective):
 PUBLIC_MODES = ("reusable-no", "reusable-yes", "reusable-improved", "auto-cached", "auto-plain")
 
 
-def make_optimizer(mode, instr="private"):
+def make_optimizer(mode, instr="private", **over):
     """instr: 'private' = yield points on private attributes (instance wrappers); 'public' = yield
-    points only inside a user-supplied objective; 'none' = the plain object."""
+    points only inside a user-supplied objective; 'none' = the plain object.  `over`: overrides of
+    the hyper-optimizer keyword arguments (the nested streams pass their own `methods`)."""
     wrap_r = instrument_reusable if instr == "private" else (lambda o: o)
     wrap_a = instrument_auto if instr == "private" else (lambda o: o)
     hyper_kw = dict(HYPER_KW)
+    hyper_kw.update(over)
     if instr == "public":
         hyper_kw["minimize"] = HookObjective()
+    flags = mode_flags(mode)
+    mode = base_mode(mode)
+    if mode.startswith("reusable"):
+        if "b" in flags:
+            hyper_kw["hash_method"] = "b"
+        if "dir" in flags:
+            import tempfile
+            hyper_kw["directory"] = tempfile.mkdtemp(prefix="c16-cache-")
+            _TMPDIRS.append(hyper_kw["directory"])
+            if "flat" in flags:
+                hyper_kw["directory_split"] = False
+    if mode.startswith("pool"):
+        # one ReusableHyperOptimizer whose sub-searches dispatch their trials to a user-supplied
+        # executor (public API: `parallel=<executor>`); see harness/c16_pool.py
+        from . import c16_pool
+        return c16_pool.make_pool_optimizer(mode, wrap_r, hyper_kw)
     if mode.startswith("reusable"):
         kind = mode.split("-")[1]
         if kind == "rgreedy":
-            return wrap_r(ReusableRandomGreedyOptimizer(max_repeats=2))
+            rk = {k: hyper_kw[k] for k in ("hash_method", "directory", "directory_split") if k in hyper_kw}
+            return wrap_r(ReusableRandomGreedyOptimizer(max_repeats=2, **rk))
         ov = {"no": False, "yes": True, "improved": "improved", "cacheonly": False}[kind]
         return wrap_r(ctg.ReusableHyperOptimizer(overwrite=ov, cache_only=(kind == "cacheonly"), **hyper_kw))
     kw = dict(hyper_kw)
@@ -393,6 +580,7 @@ def make_optimizer(mode, instr="private"):
 
 
 def model_mode(mode):
+    mode = base_mode(mode)
     if mode.startswith("reusable"):
         kind = mode.split("-")[1]
         return {"mode": "reusable", "overwrite": {"yes": "yes", "improved": "improved"}.get(kind, "no"),
@@ -406,22 +594,48 @@ def model_mode(mode):
 #  one run under a controller
 # ------------------------------------------------------------------------------------------
 
+_TRACED_FILES = (os.path.join("cotengra", "reusable.py"), os.path.join("cotengra", "presets.py"))
+
+
+def _line_tracer(frame, event, arg):
+    """`sys.settrace` hook (instr='trace'): every source line of a *method* defined in
+    cotengra/reusable.py or cotengra/presets.py is a yield point -- no attribute of the optimizers
+    is named, and the granularity is finer than the shared-access yield points."""
+    co = frame.f_code
+    if not co.co_filename.endswith(_TRACED_FILES) or "self" not in co.co_varnames[:1]:
+        return None
+
+    def local(frame, event, arg):
+        if event == "line":
+            _yield("line")
+        return local
+
+    return local
+
+
 def run_threads(mode, programs, chooser=None, free=False, use_call=False, instr="private"):
     """programs: per thread, list of pool ids. Returns observation dict.
     Raises InstrumentationError (only) when instr='private' cannot be installed."""
-    opt = make_optimizer(mode, instr)
+    opt = make_optimizer(mode, "none" if instr == "trace" else instr)
     n = len(programs)
     ctl = Controller(n, chooser or (lambda en, k: en[0]))
     ctl.free = free
     results = [[] for _ in range(n)]
     errors = [[] for _ in range(n)]
 
+    nodes = [[] for _ in range(n)]
+
     def worker(i):
         _tls.ctl, _tls.idx = ctl, i
         try:
             ctl.start(i)
+            if instr == "trace":
+                sys.settrace(_line_tracer)
             for j, nid in enumerate(programs[i]):
                 net = POOL[nid]
+                node = {"nid": nid, "searched": False, "score": None, "obj_key": None}
+                nodes[i].append(node)
+                _tls.qstack = [{"node": node, "k": 0}]
                 try:
                     with warnings.catch_warnings():
                         warnings.simplefilter("ignore")
@@ -438,7 +652,9 @@ def run_threads(mode, programs, chooser=None, free=False, use_call=False, instr=
                 if j + 1 < len(programs[i]):
                     ctl.yield_(i)
         finally:
+            sys.settrace(None)
             _tls.ctl = None
+            _tls.qstack = None
             ctl.finish(i)
 
     ths = [threading.Thread(target=worker, args=(i,), daemon=True) for i in range(n)]
@@ -451,7 +667,15 @@ def run_threads(mode, programs, chooser=None, free=False, use_call=False, instr=
         t.join(timeout=60)
     obs = {"results": results, "errors": errors, "schedule": list(ctl.effective),
            "enabled": ctl.enabled_log, "completed": completed and all(not t.is_alive() for t in ths)}
+    while _TMPDIRS:
+        import shutil
+        shutil.rmtree(_TMPDIRS.pop(), ignore_errors=True)
     obs["instr"] = instr
+    obs["seg_labels"] = list(ctl.seg_labels)
+    obs["nodes"] = nodes
+    obs["_opt"] = opt
+    if ctl.degraded:
+        obs["blocked"] = ctl.degraded
     if instr != "private":
         return obs
     # per-thread sub-search counts, scores and cached keys (private attributes: best effort)
@@ -481,7 +705,7 @@ def _observe_private(opt, mode, programs, obs):
                 hh = hash_contraction(net.sym_inputs(), net.sym_output(), net.sym_sizes(), robj._hash_method)
                 if robj.directory_split:
                     hh = (hh[:2], hh[2:])
-                keys.append([KEY[nid], hh in robj._cache._inner])
+                keys.append([keyof(mode, nid), hh in robj._cache._inner])
             ded = {}
             for k, v in keys:
                 ded[k] = v
@@ -511,7 +735,7 @@ def oracle(programs, obs, mode=None):
             if got is not None and got != nid:
                 return ("tree-of-another-contraction", {"thread": i, "asked": nid, "returned": got})
         for e in obs["errors"][i]:
-            if not (e == "KeyError" and mode == "reusable-cacheonly"):
+            if not (e == "KeyError" and mode is not None and base_mode(mode) == "reusable-cacheonly"):
                 return ("call-raised", {"thread": i, "error": e})
     return None
 
@@ -522,7 +746,7 @@ def model_compare(drv, mode, programs, obs):
     trials = [[[allsc.index(s)] for s in per] + [[0]] * 4 for per in obs["scores"]]
     if mm["mode"] == "auto_plain":
         trials = [[[k] for k in range(len(p) + 2)] for p in programs]
-    resp = drv.call("c16.run", queues=[[[nid, KEY[nid], bool(HARD[nid])] for nid in p] for p in programs],
+    resp = drv.call("c16.run", queues=[[[nid, keyof(mode, nid), bool(HARD[nid])] for nid in p] for p in programs],
                     trials=trials, schedule=obs["schedule"], fresh_plain=True, obj_of=obs["obj_of"], **mm)
     if "error" in resp:
         return "driver error: " + resp["error"]
@@ -535,6 +759,95 @@ def model_compare(drv, mode, programs, obs):
             return f"thread {i}: sub-searches model {th['nsearch']} vs implementation {obs['nsearch'][i]}"
         if obs["cached"][i] is not None and sorted(th["cached"]) != sorted(obs["cached"][i]):
             return f"thread {i}: cached keys model {th['cached']} vs implementation {obs['cached'][i]}"
+    return model_compare_labelled(drv, mode, programs, obs, allsc)
+
+
+OBSERVABLE = ["hash", "getopt", "search", "store", "cacheGet", "cacheSet", "call"]
+
+
+def model_compare_labelled(drv, mode, programs, obs, allsc):
+    """The same run against the stack-of-frames model (Model/ReuseNest.lean, flat nesting trees),
+    segment by segment: which kind of shared access ended every segment of the effective schedule
+    must be what the model's thread does next (the intermediate states, not only the end)."""
+    if len(obs.get("seg_labels", [])) != len(obs["schedule"]):
+        return None
+    mm = model_mode(mode)
+    queues = []
+    for i, prog in enumerate(programs):
+        q = []
+        for j, nid in enumerate(prog):
+            node = obs["nodes"][i][j] if j < len(obs["nodes"][i]) else {}
+            sc = node.get("score")
+            rank = allsc.index(sc) if sc in allsc else 0
+            q.append({"q": [nid, keyof(mode, nid), bool(HARD[nid])], "kind": mm["mode"], "obj": obs["obj_of"][i],
+                      "call": False, "trials": [{"nested": [], "score": rank}]})
+        queues.append(q)
+    objs = sorted(set(obs["obj_of"]))
+    resp = drv.call("c16.nrun", queues=queues, overwrite=[[o, mm["overwrite"]] for o in objs],
+                    cache_only=objs if mm["cache_only"] else [],
+                    segments=[[t, l] for t, l in zip(obs["schedule"], obs["seg_labels"])],
+                    observable=OBSERVABLE,
+                    probe=[[obs["obj_of"][i], keyof(mode, nid)] for i, p in enumerate(programs) for nid in dict.fromkeys(p)])
+    if "error" in resp:
+        return "c16.nrun driver error: " + resp["error"]
+    if resp["mismatch"] is not None:
+        m = resp["mismatch"]
+        return (f"c16.nrun: segment {m['segment']} of the schedule ended at yield point {m['expected']!r} in the "
+                f"implementation, the model's thread comes to {m['got']!r} next")
+    for i, th in enumerate(resp["threads"]):
+        got = [[r[0], r[3]] for r in th["results"]]
+        if th["left"] != 0 or th["stack"] != 0:
+            return f"c16.nrun thread {i}: model has not finished"
+        if th["after_segments"] != len(th["results"]):
+            return f"c16.nrun thread {i}: the model needed steps beyond the implementation's schedule"
+        if got != obs["results"][i]:
+            return f"c16.nrun thread {i}: results model {got} vs implementation {obs['results'][i]}"
+        if th["nalloc"] != obs["nsearch"][i]:
+            return f"c16.nrun thread {i}: sub-optimizers created model {th['nalloc']} vs implementation {obs['nsearch'][i]}"
+    probe = {}
+    for i, per in enumerate(obs["cached"]):
+        for k, v in (per or []):
+            probe[(obs["obj_of"][i], k)] = v
+    for o, k, v in resp["cached"]:
+        if (o, k) in probe and probe[(o, k)] != v:
+            return f"c16.nrun: object {o} key {k}: cached model {v} vs implementation {probe[(o, k)]}"
+    if mode.startswith("reusable"):
+        return model_compare_identity(drv, mode, programs, obs, allsc)
+    return None
+
+
+def model_compare_identity(drv, mode, programs, obs, allsc):
+    """The same run against the heap model (Model/ReuseShared.lean, policy `fresh`): besides the
+    answers and the labelled segments, *which object* every `_get_suboptimizer()` call handed out
+    (first-occurrence numbering of the identities, in the order of the calls)."""
+    opt = obs.get("_opt")
+    ids = list(getattr(opt, "_verif_subopt_ids", []) or [])
+    mm = model_mode(mode)
+    trials = [[[allsc.index(s) if s in allsc else 0] for s in per] + [[0]] * 4 for per in obs["scores"]]
+    resp = drv.call("c16.srun", policy="fresh", overwrite=mm["overwrite"], cache_only=mm["cache_only"],
+                    queues=[[[nid, keyof(mode, nid), bool(HARD[nid])] for nid in p] for p in programs], trials=trials,
+                    segments=[[t, l] for t, l in zip(obs["schedule"], obs["seg_labels"])])
+    if "error" in resp:
+        return "c16.srun driver error: " + resp["error"]
+    if resp["mismatch"] is not None:
+        m = resp["mismatch"]
+        return (f"c16.srun: segment {m['segment']} ended at {m['expected']!r} in the implementation, the heap "
+                f"model's thread comes to {m['got']!r}")
+    for i, th in enumerate(resp["threads"]):
+        if th["left"] != 0 or th["pc"] != "idle":
+            return f"c16.srun thread {i}: model has not finished its program"
+        if th["results"] != obs["results"][i]:
+            return f"c16.srun thread {i}: results model {th['results']} vs implementation {obs['results'][i]}"
+        if th["nsearch"] != obs["nsearch"][i]:
+            return f"c16.srun thread {i}: sub-searches model {th['nsearch']} vs implementation {obs['nsearch'][i]}"
+
+    def canon(xs):
+        seen = {}
+        return [seen.setdefault(x, len(seen)) for x in xs]
+
+    if canon(resp["refs"]) != canon(ids):
+        return (f"c16.srun: sub-optimizer objects handed out (first-occurrence numbering): model {canon(resp['refs'])} "
+                f"vs implementation {canon(ids)} -- `_get_suboptimizer()` does not return a new object per call")
     return None
 
 
@@ -554,7 +867,7 @@ def check_schedule(ctx, drv, mode, programs, chooser, tag, instr="private"):
     Never raises on behalf of the real code: a missing private attribute is recorded as a broken
     correspondence (once per message) and the run falls back to the public yield points."""
     if instr == "private" and _DEGRADED.get(mode.split("-")[0]):
-        instr = "public" if mode in PUBLIC_MODES else "none"
+        instr = "public" if mode in PUBLIC_MODES else "trace"
     try:
         obs = run_threads(mode, programs, chooser, instr=instr)
     except InstrumentationError as e:
@@ -563,7 +876,7 @@ def check_schedule(ctx, drv, mode, programs, chooser, tag, instr="private"):
             _DEGRADED[fam] = str(e)
             ctx.corr_broken("instrumentation of the private yield points is not possible: " + str(e),
                             {"mode": mode})
-        instr = "public" if mode in PUBLIC_MODES else "none"
+        instr = "public" if mode in PUBLIC_MODES else "trace"
         obs = run_threads(mode, programs, chooser, instr=instr)
     pre = "E" if instr == "private" else "P"
     ctx.count(f"{pre}:{tag}:{mode}")
@@ -586,10 +899,12 @@ def check_schedule(ctx, drv, mode, programs, chooser, tag, instr="private"):
         ctx.violation(signature(mode, programs, bad), {"case": case, "failed": [bad[0], bad[1]]},
                       f"{mode}: {bad[0]} {bad[1]}")
         return obs, False
-    if obs.get("degraded"):
+    if obs.get("blocked"):
+        ctx.count("runs_with_a_thread_blocked_outside_the_controller")
+    elif obs.get("degraded"):
         if not _DEGRADED.get("obs:" + mode.split("-")[0]):
             _DEGRADED["obs:" + mode.split("-")[0]] = obs["degraded"]
-            ctx.corr_broken("private state could not be observed: " + obs["degraded"], case)
+            ctx.corr_broken("the run could not be compared with the model: " + obs["degraded"], case)
     elif drv is not None and instr == "private":
         try:
             diff = model_compare(drv, mode, programs, obs)
@@ -599,6 +914,44 @@ def check_schedule(ctx, drv, mode, programs, chooser, tag, instr="private"):
         if diff:
             ctx.corr_broken("c16.run: " + diff, case)
     return obs, True
+
+
+def window_choosers(programs, counts):
+    """Schedules of the form: thread `first` runs `k` of its segments, then every other thread runs
+    its whole program, then `first` finishes -- i.e. the others' queries fall entirely between two
+    consecutive yield points of `first`; for every thread and every k."""
+    out = []
+    for first in range(len(programs)):
+        for k in range(counts[first] + 1):
+            def chooser(enabled, pos, first=first, k=k, st={"mine": 0}):
+                if pos == 0:
+                    st["mine"] = 0
+                if st["mine"] < k and first in enabled:
+                    st["mine"] += 1
+                    return first
+                for t in enabled:
+                    if t != first:
+                        return t
+                return enabled[0]
+            out.append(chooser)
+    return out
+
+
+def check_windows(ctx, drv, mode, programs, instr, tag="window"):
+    """all window schedules of `programs` (see window_choosers); returns the number of runs"""
+    obs0, ok = check_schedule(ctx, drv, mode, programs, None, tag, instr=instr)
+    if not ok:
+        return 1
+    counts = [obs0["schedule"].count(t) for t in range(len(programs))]
+    runs = 1
+    for ch in window_choosers(programs, counts):
+        if ctx.time_left() < 40:
+            break
+        _, ok = check_schedule(ctx, drv if instr == "private" else None, mode, programs, ch, tag, instr=instr)
+        runs += 1
+        if not ok:
+            break
+    return runs
 
 
 def explore_all(ctx, drv, mode, programs, max_runs, tag="exhaustive", instr="private"):
@@ -660,14 +1013,16 @@ def presets_run(programs, free):
     results = [[] for _ in range(n)]
 
     def worker(i):
-        for name, nid in programs[i]:
+        for ent in programs[i]:
+            name, nid = ent[0], ent[1]
+            canon = bool(ent[2]) if len(ent) > 2 else False
             net = POOL[nid]
             try:
                 with warnings.catch_warnings():
                     warnings.simplefilter("ignore")
                     tree = ctg.array_contract_tree(net.sym_inputs(), net.sym_output(), net.sym_sizes(),
-                                                   optimize=name, canonicalize=False)
-                results[i].append([nid, net_of_tree(tree)])
+                                                   optimize=name, canonicalize=canon)
+                results[i].append([nid, net_of_tree_canon(tree, nid) if canon else net_of_tree(tree)])
             except Exception as e:
                 results[i].append([nid, None])
 
@@ -689,14 +1044,15 @@ def presets_run(programs, free):
 
 def check_presets(ctx, nthreads, nq):
     rng = ctx.rng
-    programs = [[[rng.choice(PRESETS), rng.randrange(len(POOL) - 1)] for _ in range(nq)]
+    programs = [[[rng.choice(PRESETS), rng.randrange(len(POOL) - 1), rng.random() < 0.4] for _ in range(nq)]
                 for _ in range(nthreads)]
     res = presets_run(programs, nthreads > 1)
     ctx.count("S:presets:%s" % ("threads" if nthreads > 1 else "sequential"))
     case = {"kind": "presets", "programs": programs}
     ctx.case(case, nontrivial=True, sample=False)
     for i, per in enumerate(res):
-        for (name, nid), (_, got) in zip(programs[i], per):
+        for ent, (_, got) in zip(programs[i], per):
+            name, nid = ent[0], ent[1]
             if got is not None and got != nid:
                 ctx.violation({"site": "array_contract_tree", "optimizer": "preset:" + name,
                                "kind": "tree-of-another-contraction"},
@@ -808,8 +1164,179 @@ def extract_facts():
             "last_opt_reads_ident": last_opt_reads_ident, "auto_stores": sorted(set(astores))}
 
 
+_MUTATORS = ("append", "extend", "insert", "pop", "remove", "clear", "update", "setdefault", "add", "popitem",
+             "appendleft", "popleft", "discard")
+
+
+def _is_fresh_container(v):
+    """an expression that evaluates to a new empty container"""
+    if isinstance(v, (ast.List, ast.Dict, ast.Set)):
+        return not (getattr(v, "elts", None) or getattr(v, "keys", None))
+    if isinstance(v, ast.Call) and not v.args and not v.keywords:
+        f = v.func
+        name = f.id if isinstance(f, ast.Name) else (f.attr if isinstance(f, ast.Attribute) else "")
+        return name in ("list", "dict", "set", "deque")
+    return False
+
+
+def _is_mutable_value(v):
+    if isinstance(v, (ast.List, ast.Dict, ast.Set, ast.ListComp, ast.DictComp, ast.SetComp)):
+        return True
+    if isinstance(v, ast.Call):
+        f = v.func
+        name = f.id if isinstance(f, ast.Name) else (f.attr if isinstance(f, ast.Attribute) else "")
+        return name in ("list", "dict", "set", "deque", "defaultdict", "OrderedDict")
+    return False
+
+
+def _self_attr(n, attr=None):
+    return isinstance(n, ast.Attribute) and isinstance(n.value, ast.Name) and n.value.id == "self" and \
+        (attr is None or n.attr == attr)
+
+
+def extract_futures_facts():
+    """How `HyperOptimizer` keeps the in-flight trials of a pool-parallel search (hyper.py):
+    is `self._futures` bound to a fresh container at the start of every search, is there a
+    class-level mutable container that instances mutate in place, is `_futures` reached other than
+    through `self`."""
+    src = open(os.path.join(common.REPO, "cotengra", "hyperoptimizers", "hyper.py")).read()
+    mod = ast.parse(src)
+    classes = {n.name: n for n in mod.body if isinstance(n, ast.ClassDef)}
+
+    def derives(c):
+        for b in c.bases:
+            nm = b.id if isinstance(b, ast.Name) else (b.attr if isinstance(b, ast.Attribute) else "")
+            if nm == "HyperOptimizer" or (nm in classes and derives(classes[nm])):
+                return True
+        return False
+
+    fam = [c for c in classes.values() if c.name == "HyperOptimizer" or derives(c)]
+    # names mutated in place through `self.<name>` in any method of the family
+    mutated = set()
+    for c in fam:
+        for n in ast.walk(c):
+            if isinstance(n, ast.Call) and isinstance(n.func, ast.Attribute) and n.func.attr in _MUTATORS \
+                    and _self_attr(n.func.value):
+                mutated.add(n.func.value.attr)
+            if isinstance(n, ast.Delete):
+                for t in n.targets:
+                    if isinstance(t, ast.Subscript) and _self_attr(t.value):
+                        mutated.add(t.value.attr)
+            if isinstance(n, (ast.Assign, ast.AugAssign)):
+                for t in (n.targets if isinstance(n, ast.Assign) else [n.target]):
+                    if isinstance(t, ast.Subscript) and _self_attr(t.value):
+                        mutated.add(t.value.attr)
+    class_mutables = []
+    for c in fam:
+        for st in c.body:
+            tgts, val = [], None
+            if isinstance(st, ast.Assign):
+                tgts, val = st.targets, st.value
+            elif isinstance(st, ast.AnnAssign) and st.value is not None:
+                tgts, val = [st.target], st.value
+            for t in tgts:
+                if isinstance(t, ast.Name) and _is_mutable_value(val) and t.id in mutated:
+                    class_mutables.append(f"{c.name}.{t.id}")
+    ho = classes["HyperOptimizer"]
+    meths = {n.name: n for n in ho.body if isinstance(n, ast.FunctionDef)}
+
+    def uses(node):
+        return any(_self_attr(n, "_futures") for n in ast.walk(node))
+
+    def fresh_at_start(fn):
+        """a top-level `self._futures = <fresh empty container>` before any other use"""
+        if fn is None:
+            return False
+        for st in fn.body:
+            if isinstance(st, ast.Assign) and len(st.targets) == 1 and _self_attr(st.targets[0], "_futures") \
+                    and _is_fresh_container(st.value):
+                return True
+            if uses(st):
+                return False
+        return False
+
+    fresh = fresh_at_start(meths.get("_gen_results_parallel"))
+    rebinders = sorted({m.name for m in meths.values() for n in ast.walk(m)
+                        if isinstance(n, ast.Assign) and any(_self_attr(t, "_futures") for t in n.targets)})
+    foreign = []
+    for c in fam:
+        for m in [n for n in c.body if isinstance(n, ast.FunctionDef)]:
+            for n in ast.walk(m):
+                if isinstance(n, ast.Attribute) and n.attr == "_futures" and not _self_attr(n):
+                    foreign.append(f"{c.name}.{m.name}")
+    return {"class_mutables": sorted(set(class_mutables)), "fresh_per_search": bool(fresh),
+            "rebinders": rebinders, "foreign_uses": sorted(set(foreign))}
+
+
+def extract_iface_facts():
+    """`interface.hash_contraction` returns the tuple of everything that defines the contraction
+    (not a hash of it), and `array_contract_path` looks `_PATH_CACHE` up under exactly that key."""
+    src = open(os.path.join(common.REPO, "cotengra", "interface.py")).read()
+    mod = ast.parse(src)
+    fn = next(n for n in mod.body if isinstance(n, ast.FunctionDef) and n.name == "hash_contraction")
+    rets = [n for n in ast.walk(fn) if isinstance(n, ast.Return)]
+    parts, ok = [], len(rets) == 1 and isinstance(rets[0].value, ast.Tuple)
+    if ok:
+        for e in rets[0].value.elts:
+            parts.append(sorted({n.id for n in ast.walk(e) if isinstance(n, ast.Name)} &
+                                {"inputs", "output", "size_dict", "optimize", "kwargs"}))
+    calls_hash = any(isinstance(n, ast.Call) and isinstance(n.func, ast.Name) and n.func.id in ("hash", "id")
+                     for n in ast.walk(fn))
+    names = sorted({x for p_ in parts for x in p_})
+    # `inputs`, `output` must enter the key unprocessed (bare names), the sizes item-wise
+    bare = sorted(e.id for e in (rets[0].value.elts if ok else []) if isinstance(e, ast.Name))
+    acp = next(n for n in mod.body if isinstance(n, ast.FunctionDef) and n.name == "array_contract_path")
+    keyed = any(isinstance(n, ast.Subscript) and isinstance(n.value, ast.Name) and n.value.id == "_PATH_CACHE"
+                and isinstance(n.slice, ast.Name) and n.slice.id == "key" for n in ast.walk(acp))
+    key_from = any(isinstance(n, ast.Assign) and any(isinstance(t, ast.Name) and t.id == "key" for t in n.targets)
+                   and isinstance(n.value, ast.Call) and isinstance(n.value.func, ast.Name)
+                   and n.value.func.id == "hash_contraction" for n in ast.walk(acp))
+    return {"key_names": names, "bare": bare, "calls_hash": bool(calls_hash), "returns_tuple": bool(ok),
+            "cache_keyed_by_it": bool(keyed and key_from)}
+
+
+def extract_subopt_facts():
+    """Every `_get_suboptimizer` of a subclass of `ReusableOptimizer` (hyper.py, path_basic.py) is
+    a single `return <ClassName>(...)`: a new object per call."""
+    out = []
+    for rel in (os.path.join("hyperoptimizers", "hyper.py"), os.path.join("pathfinders", "path_basic.py")):
+        mod = ast.parse(open(os.path.join(common.REPO, "cotengra", rel)).read())
+        for c in [n for n in mod.body if isinstance(n, ast.ClassDef)]:
+            bases = [b.id if isinstance(b, ast.Name) else getattr(b, "attr", "") for b in c.bases]
+            if "ReusableOptimizer" not in bases:
+                continue
+            fn = next((n for n in c.body if isinstance(n, ast.FunctionDef) and n.name == "_get_suboptimizer"), None)
+            ok = False
+            if fn is not None:
+                body = [st for st in fn.body if not (isinstance(st, ast.Expr) and isinstance(st.value, ast.Constant))]
+                if len(body) == 1 and isinstance(body[0], ast.Return) and isinstance(body[0].value, ast.Call):
+                    f = body[0].value.func
+                    name = f.id if isinstance(f, ast.Name) else (f.attr if isinstance(f, ast.Attribute) else "")
+                    ok = bool(name) and name[0].isupper()
+            out.append([c.name, bool(ok)])
+    ru = ast.parse(open(os.path.join(common.REPO, "cotengra", "reusable.py")).read())
+    rc = next(n for n in ru.body if isinstance(n, ast.ClassDef) and n.name == "ReusableOptimizer")
+    runs = [n for n in rc.body if isinstance(n, ast.FunctionDef) and n.name == "_run_optimizer"]
+    calls = sum(1 for n in ast.walk(runs[-1]) if isinstance(n, ast.Call) and isinstance(n.func, ast.Attribute)
+                and n.func.attr == "_get_suboptimizer") if runs else 0
+    return {"classes": sorted(out), "calls_in_run_optimizer": calls}
+
+
 def gen_facts():
     f = extract_facts()
+    try:
+        fs = extract_subopt_facts()
+    except Exception as e:  # noqa
+        fs = {"classes": [["<extraction failed>", False]], "calls_in_run_optimizer": 0}
+    try:
+        fi = extract_iface_facts()
+    except Exception as e:  # noqa
+        fi = {"key_names": [], "bare": [], "calls_hash": True, "returns_tuple": False, "cache_keyed_by_it": False}
+    try:
+        ff = extract_futures_facts()
+    except Exception as e:  # noqa  (the obligation then fails: nothing can be said about the source)
+        ff = {"class_mutables": ["<extraction failed: %s>" % type(e).__name__], "fresh_per_search": False,
+              "rebinders": [], "foreign_uses": []}
 
     def lst(xs):
         return "[" + ", ".join(json.dumps(x) for x in xs) + "]"
@@ -842,6 +1369,41 @@ def lastOptReadsIdent : Bool := {"true" if f["last_opt_reads_ident"] else "false
     (attribute, subscript key or "" for a plain attribute store) -/
 def autoStores : List (String × String) := [{autos}]
 
+/-- class-level mutable containers of `HyperOptimizer` (and subclasses, hyper.py) that instances
+    mutate in place through `self.<name>` -/
+def hyperClassMutables : List String := {lst(ff["class_mutables"])}
+
+/-- `_gen_results_parallel` starts with `self._futures = <fresh empty container>` (before any
+    other use of `self._futures`) -/
+def futuresFreshPerSearch : Bool := {"true" if ff["fresh_per_search"] else "false"}
+
+/-- methods of `HyperOptimizer` that (re)bind `self._futures` -/
+def futuresRebinders : List String := {lst(ff["rebinders"])}
+
+/-- methods that reach `_futures` other than through `self` -/
+def futuresForeignUses : List String := {lst(ff["foreign_uses"])}
+
+/-- subclass of `ReusableOptimizer` -> its `_get_suboptimizer` is a single `return <Class>(...)` -/
+def suboptFreshPerCall : List (String × Bool) := [{", ".join('("%s", %s)' % (c, "true" if b else "false") for c, b in fs["classes"])}]
+
+/-- number of `self._get_suboptimizer()` calls in `ReusableOptimizer._run_optimizer` -/
+def suboptCallsPerRun : Nat := {fs["calls_in_run_optimizer"]}
+
+/-- `interface.hash_contraction` has a single `return` of a tuple display -/
+def ifaceKeyReturnsTuple : Bool := {"true" if fi["returns_tuple"] else "false"}
+
+/-- which of its parameters enter that tuple -/
+def ifaceKeyNames : List String := {lst(fi["key_names"])}
+
+/-- which enter it as they are (a bare name as tuple element) -/
+def ifaceKeyBare : List String := {lst(fi["bare"])}
+
+/-- it calls `hash(...)` / `id(...)` -/
+def ifaceKeyCallsHash : Bool := {"true" if fi["calls_hash"] else "false"}
+
+/-- `array_contract_path` indexes `_PATH_CACHE` with `key = hash_contraction(...)` -/
+def ifaceCacheKeyedByIt : Bool := {"true" if fi["cache_keyed_by_it"] else "false"}
+
 end Cotengra.Generated.C16
 """
     return {"CotengraVerif/Generated/FactsC16.lean": src}
@@ -853,8 +1415,18 @@ end Cotengra.Generated.C16
 
 def replay_case(case):
     kind = case["kind"]
+    if kind == "nested":
+        from . import c16_nest
+        return c16_nest.replay_case(case)
+    if kind == "iface":
+        from . import c16_iface
+        return c16_iface.replay_case(case)
     if kind == "schedule":
         sched = list(case["schedule"])
+        try:        # warm-up, see run()
+            run_threads(case["mode"], [[3, 0]], None, free=True, instr="none")
+        except Exception:
+            pass
 
         def chooser(enabled, k):
             if k < len(sched) and sched[k] in enabled:
@@ -862,13 +1434,19 @@ def replay_case(case):
             return enabled[0]
 
         instr = case.get("instr", "private")
-        try:
-            obs = run_threads(case["mode"], case["programs"], chooser, instr=instr)
-        except InstrumentationError:
-            # the schedule was recorded at the private yield points, which are gone: the same
-            # programs under every public-hook interleaving instead
-            return replay_public_all(case["mode"], case["programs"])
-        bad = oracle(case["programs"], obs, case["mode"])
+        bad = None
+        # the schedule is forced, but the sub-optimizers draw their trials at random: a failure
+        # that depends on which trial wins shows up in some of the repetitions only
+        for _ in range(6):
+            try:
+                obs = run_threads(case["mode"], case["programs"], chooser, instr=instr)
+            except InstrumentationError:
+                # the schedule was recorded at the private yield points, which are gone: the same
+                # programs under every public-hook interleaving instead
+                return replay_public_all(case["mode"], case["programs"])
+            bad = oracle(case["programs"], obs, case["mode"])
+            if bad is not None:
+                break
         return bad is None, (signature(case["mode"], case["programs"], bad) if bad else None), bad
     if kind == "stress":
         # a stress failure depends on the OS schedule: try a number of times
@@ -888,7 +1466,8 @@ def replay_case(case):
         for _ in range(10):
             res = presets_run(case["programs"], len(case["programs"]) > 1)
             for i, per in enumerate(res):
-                for (name, nid), (_, got) in zip(case["programs"][i], per):
+                for ent, (_, got) in zip(case["programs"][i], per):
+                    name, nid = ent[0], ent[1]
                     if got is not None and got != nid:
                         return False, {"site": "array_contract_tree", "optimizer": "preset:" + name,
                                        "kind": "tree-of-another-contraction"}, ("tree-of-another-contraction", [nid, got])
@@ -949,12 +1528,23 @@ def run(ctx, drv):
                           f"corpus case {os.path.basename(path)} fails again: {bad[0]} {bad[1]}")
     try:
         ctx.notes["facts_extracted"] = extract_facts()
+        ctx.notes["facts_extracted"]["futures"] = extract_futures_facts()
+        ctx.notes["facts_extracted"]["iface_key"] = extract_iface_facts()
+        ctx.notes["facts_extracted"]["suboptimizer"] = extract_subopt_facts()
     except Exception as e:
         ctx.obligation("fact extraction from reusable.py / presets.py / path_basic.py", False, repr(e))
 
+    # warm-up (lazy imports, pools, compiled helpers): the controller takes a thread that does not
+    # reach a yield point within `Controller.block_timeout` for blocked
+    for mode in MODES:
+        try:
+            run_threads(mode, [[3, 0]], None, free=True, instr="none")
+        except Exception:
+            pass
+
     # E1: every interleaving of small programs
     ex = [("reusable-improved", [[4, 3, 4]]), ("reusable-improved", [[3, 4, 3]]), ("reusable-no", [[3], [3]]), ("reusable-no", [[3], [4]]), ("reusable-yes", [[3], [3]]),
-          ("reusable-cacheonly", [[3], [3]]), ("reusable-rgreedy", [[4], [4]]),
+          ("reusable-cacheonly", [[3], [3]]), ("reusable-rgreedy", [[4], [4]]), ("reusable-rgreedy", [[3], [4]]),
           ("auto-cached", [[3], [3]]), ("auto-plain", [[3], [4]]), ("reusable-no", [[3], [7]]),
           ("reusable-improved", [[3], [3]])]
     if not quick:
@@ -969,6 +1559,19 @@ def run(ctx, drv):
         all_done = all_done and complete
     ctx.notes["exhaustive_interleavings"] = exnotes
     ctx.exhaustive = False  # the property's space (all programs) is infinite; see notes for the finite parts
+
+    # W: window schedules -- another thread's whole query between two consecutive yield points of
+    # this one -- for every mode: at the shared-access yield points (with the model), and at every
+    # source line of the methods of reusable.py / presets.py (`sys.settrace`, no private name)
+    wn = 0
+    for mode in MODES + ("reusable-rgreedy+dir", "reusable-no+b+dir+flat", "reusable-improved+b"):
+        for programs in ([[3], [4]], [[4], [3]]) if not mode.startswith("auto") else ([[3], [4]],):
+            wn += check_windows(ctx, drv, mode, programs, "private")
+    tmodes = ("reusable-no", "reusable-rgreedy", "auto-cached") if quick else MODES
+    for mode in tmodes:
+        for programs in ([[3], [4]],) if quick else ([[3], [4]], [[4], [3]], [[3, 4], [4]]):
+            wn += check_windows(ctx, None, mode, programs, "trace", tag="line-window")
+    ctx.notes["window_schedules"] = wn
 
     # P: the same kind of exploration through *public* hooks only (a user-supplied Objective whose
     # calls are the yield points; one of them sits between "search recorded" and "tree fetched")
@@ -1002,6 +1605,11 @@ def run(ctx, drv):
         mode = rng.choice(MODES)
         nth = rng.choice([1, 2, 2, 3])
         programs = random_programs(rng, nth, 3, mode)
+        if mode.startswith("reusable"):       # options: fingerprint method, disk cache, flat directory
+            if rng.random() < 0.25:
+                mode += "+b"
+            if rng.random() < 0.12:
+                mode += "+dir" + ("+flat" if rng.random() < 0.4 else "")
         seed = rng.randrange(1 << 30)
         import random as _r
         r2 = _r.Random(seed)
@@ -1016,6 +1624,15 @@ def run(ctx, drv):
         a, b = rng.sample(ids, 2)
         hist = [a, b, a] + [rng.choice([a, b, rng.choice(ids)]) for _ in range(rng.randint(0, 3))]
         check_schedule(ctx, drv, mode, [hist], None, "sequential")
+
+    # N: re-entrant (nested) queries -- Model/ReuseNest.lean, driver op c16.nrun
+    from . import c16_nest, c16_pool
+    c16_nest.run(ctx, drv)
+    # Q: overlapping pool-parallel sub-searches -- Model/ReusePool.lean, driver op c16.pool
+    c16_pool.run(ctx, drv)
+    # I: the path cache of the functional interface -- Model/ReuseIface.lean, driver op c16.iface
+    from . import c16_iface
+    c16_iface.run(ctx, drv)
 
     # S: free-running stress, sequential reuse, presets
     ns = 64 if quick else 800
@@ -1042,12 +1659,35 @@ def search(ctx):
     import random as _r
     rng = ctx.rng
     found = False
+    from . import c16_nest, c16_pool
+    if c16_nest.search(ctx):
+        return True
+    if c16_pool.search(ctx):
+        return True
+    from . import c16_iface
+    if c16_iface.search(ctx):
+        return True
 
     def report(mode, programs, case, bad):
         sig = signature(mode, programs, bad)
         sig["found_by"] = "search"
         return ctx.violation(sig, {"case": case, "failed": [bad[0], bad[1]]},
                              f"failing input found by search: {mode}: {bad[0]} {bad[1]}")
+
+    # 0. window schedules at source-line granularity (sys.settrace: no private name), every mode
+    for mode in MODES:
+        for programs in ([[3], [4]], [[4], [3]]):
+            if ctx.time_left() < 10:
+                break
+            obs0 = run_threads(mode, programs, None, instr="trace")
+            counts = [obs0["schedule"].count(t) for t in range(2)]
+            for ch in [None] + window_choosers(programs, counts):
+                obs = obs0 if ch is None else run_threads(mode, programs, ch, instr="trace")
+                bad = oracle(programs, obs, mode)
+                if bad is not None:
+                    case = {"kind": "schedule", "mode": mode, "programs": programs,
+                            "schedule": obs["schedule"], "instr": "trace"}
+                    return bool(report(mode, programs, case, bad))
 
     # 1. every public-hook interleaving of two threads asking different uncached contractions
     for mode in PUBLIC_MODES:
@@ -1101,6 +1741,11 @@ def search(ctx):
 
 
 def replay(ctx, obj):
+    for m in ("reusable-no", "reusable-rgreedy", "auto-cached"):       # warm-up, see run()
+        try:
+            run_threads(m, [[3, 0]], None, free=True, instr="none")
+        except Exception:
+            pass
     holds, sig, bad = replay_case(obj["case"])
     if not holds:
         print("#", bad[0], bad[1])
